@@ -165,15 +165,24 @@ def check(ctx):
         for m in (start, end, isr, prep):
             ctx.touch(m)
         flag = returned_field(isr)
-        if flag is None:
+        opt_flag = option_flag(isr) if flag is None else None
+        if flag is None and opt_flag is None:
             ctx.fail("C03.b", "%s::is_reacting:anchor-lost:flag-field" % tname, "%s:%d" % (isr.file, isr.line), "is_reacting does not return a field")
             continue
+        flag = flag or opt_flag
         sw = [(b, i, rv) for (b, i, adt, f, rv) in lib.field_writes(start, ty) if f == flag]
         ew = [(b, i, rv) for (b, i, adt, f, rv) in lib.field_writes(end, ty) if f == flag]
-        ctx.check(bool(sw) and all("use" in rv and lib.const_val(rv["use"]) == 1 for _, _, rv in sw), "C03.b",
+        if opt_flag is None:
+            ok_s = bool(sw) and all("use" in rv and lib.const_val(rv["use"]) == 1 for _, _, rv in sw)
+            ok_e = bool(ew) and all("use" in rv and lib.const_val(rv["use"]) == 0 for _, _, rv in ew)
+        else:
+            # is_reacting() is `self.<f>.is_some()`: start stores Some(..), end stores None
+            ok_s = bool(sw) and all(writes_some(start, rv) for _, _, rv in sw)
+            ok_e = bool(ew) and all(lib.writes_none(end, rv) for _, _, rv in ew)
+        ctx.check(ok_s, "C03.b",
                   "%s::start:sets-flag" % tname, "%s:%d" % (start.file, start.line), "start writes true to %s" % flag,
                   "start does not write constant true to the flag %s that is_reacting() returns" % flag)
-        ctx.check(bool(ew) and all("use" in rv and lib.const_val(rv["use"]) == 0 for _, _, rv in ew), "C03.b",
+        ctx.check(ok_e, "C03.b",
                   "%s::end:clears-flag" % tname, "%s:%d" % (end.file, end.line), "end writes false to %s" % flag,
                   "end does not write constant false to the flag %s" % flag)
         # end clears the flag on every path
@@ -194,8 +203,18 @@ def check(ctx):
             if f:
                 acc[nm] = f
         accessor_fields[ty] = acc
+        acc_paths = {m.raw.get("name"): returned_field_path(m) for m in A.methods_of(prog, tname)}
         for nm, f in sorted(acc.items()):
             ws = [(b, i, rv) for (b, i, adt, ff, rv) in lib.field_writes(start, ty) if ff == f]
+            fp = acc_paths.get(nm)
+            if not ws and fp and len(fp) > 1:
+                # the accessor returns a field of a record stored in the tracker (self.<rec>.<f>): a write of the whole
+                # record (or of any prefix of the path) in start() is a write of that field
+                for b, i, st in start.iter_stmts():
+                    if st["k"] == "assign" and st["place"]["l"] == 1:
+                        wp = self_field_path(st["place"])
+                        if wp and len(wp) <= len(fp) and tuple(fp[:len(wp)]) == wp:
+                            ws.append((b, i, st["rv"]))
             okw = bool(ws) and bool(claim_calls)
             for (b, i, rv) in ws:
                 src = rv.get("use")
@@ -343,6 +362,53 @@ def pending_field(prog, ty, prep):
         if r and r[0][0] == ty:
             fs.add(r[0][1])
     return fs.pop() if len(fs) == 1 else None
+
+
+def self_field_path(place):
+    """names of the crate-ADT field projections of a place rooted at `self` (`(*_1).a.b` -> ('a', 'b'))"""
+    if place["l"] != 1:
+        return None
+    return tuple(e.get("name") for e in place["p"] if isinstance(e, dict) and "f" in e and lib.is_crate_adt(e.get("adt")))
+
+
+def returned_field_path(m):
+    """field path (through nested crate records) that a simple getter returns, else None"""
+    paths = set()
+    for b, i, st in m.iter_stmts():
+        if st["k"] == "assign" and st["place"]["l"] == 0 and not st["place"]["p"]:
+            rv = st["rv"]
+            p = op_place(rv["use"]) if "use" in rv else rv.get("ref")
+            if p is None or p["l"] != 1:
+                return None
+            fp = self_field_path(p)
+            if not fp:
+                return None
+            paths.add(fp)
+    return paths.pop() if len(paths) == 1 else None
+
+
+def option_flag(m):
+    """field f when the method returns `Option::is_some(&self.f)` on its only path, else None"""
+    calls = [(b, t, fr) for b, t, fr in m.iter_calls()]
+    if len(calls) != 1 or calls[0][2] is None or lib.tail(mir.fn_name(calls[0][2]), 2) != "Option::is_some":
+        return None
+    b, t, fr = calls[0]
+    if t["dest"]["l"] != 0 and not any(st["k"] == "assign" and st["place"]["l"] == 0 and "use" in st["rv"] and
+                                       (op_place(st["rv"]["use"]) or {}).get("l") == t["dest"]["l"] for _, _, st in m.iter_stmts()):
+        return None
+    chains = lib.receiver_chains(m, t["args"][0])
+    fs = {f[1] for f, ch in chains if not ch}
+    return fs.pop() if len(fs) == 1 else None
+
+
+def writes_some(body, rv):
+    """the assigned value is Option::Some(..) (directly or through a temporary)"""
+    if "agg" in rv:
+        return rv["agg"].get("vname") == "Some"
+    if "use" in rv:
+        os_ = origins(body, rv["use"])
+        return bool(os_) and all(o[0] == "agg" and body.blocks[o[1]]["stmts"][o[2]]["rv"]["agg"].get("vname") == "Some" for o in os_)
+    return False
 
 
 def returned_field(m):
